@@ -39,6 +39,9 @@ SUPPRESS = {
     ('br_rsa_i62_private', 'branch'): ('sk.p', 'sk.q', 'same comment in rsa_i62_priv.c'),
 }
 
+# functions whose *return value* is the public accept/reject verdict by their API contract (bearssl_aead.h: "returns 1 on success")
+PUBLIC_RESULTS = ('br_ccm_check_tag', 'br_gcm_check_tag', 'br_gcm_check_tag_trunc', 'br_eax_check_tag', 'br_eax_check_tag_trunc')
+
 RSA_SK = {(1, 8): whole('sk.p'), (1, 24): whole('sk.q'), (1, 40): whole('sk.dp'), (1, 56): whole('sk.dq'), (1, 72): whole('sk.iq')}
 
 ENTRIES = []
@@ -86,6 +89,30 @@ for impl in ('ctmul', 'ctmul32', 'ctmul64'):
 # the conditional exchange of the Curve25519 ladders is modelled at its call sites (like br_ccopy); here it is analysed itself
 for impl in ('c25519_i15', 'c25519_i31'):
     entry('ec_%s.cswap' % impl, ('ec__ec_%s' % impl, 'cswap'), [X(0), X(1), SEC('ctl')], {(0,): whole('a'), (1,): whole('b')}, cswap_model=False)
+# ---- record layer decryption (MAC-then-encrypt CBC with the constant-time HMAC, and the AEAD modes)
+HASH_VT = ['br_sha1_vtable', 'br_sha256_vtable', 'br_sha384_vtable']
+CBC_AES = fields([(24, 24 + 240, 'enckey'), (424, 552, 'mackey')])
+CBC_DES = fields([(24, 24 + 384, 'enckey'), (424, 552, 'mackey')])
+for bcv in ('br_aes_ct_cbcdec_vtable', 'br_aes_ct64_cbcdec_vtable', 'br_des_ct_cbcdec_vtable'):
+    entry('rec_cbc.decrypt[%s]' % bcv[3:-14], ('ssl__ssl_rec_cbc', 'cbc_decrypt'), [X(0), BOT, BOT, X(3), X(4)],
+          {(0,): CBC_DES if 'des' in bcv else CBC_AES, (3,): whole('data')}, ptr_rules={((0,), 16): [bcv], ((0,), 416): HASH_VT})
+# the running byte count of the hash context (offset 72 resp. 136) is public: it is the amount of data hashed so far
+entry('hmac_outCT[64-byte block hashes]', 'br_hmac_outCT', [X(0), X(1), SEC('len'), BOT, BOT, X(5)],
+      {(0,): fields([(8, 72, 'hashbuf'), (80, 144, 'hashstate'), (208, 272, 'kso')]), (1,): whole('data')},
+      ptr_rules={((0,), 0): ['br_md5_vtable', 'br_sha1_vtable', 'br_sha224_vtable', 'br_sha256_vtable']})
+entry('hmac_outCT[128-byte block hashes]', 'br_hmac_outCT', [X(0), X(1), SEC('len'), BOT, BOT, X(5)],
+      {(0,): fields([(8, 136, 'hashbuf'), (144, 208, 'hashstate'), (208, 272, 'kso')]), (1,): whole('data')},
+      ptr_rules={((0,), 0): ['br_sha384_vtable', 'br_sha512_vtable']})
+AEAD_CTX = fields([(24, 24 + 240, 'enckey'), (284, 300, 'h')])
+for bcv in ('br_aes_ct_ctr_vtable', 'br_aes_ct64_ctr_vtable'):
+    entry('rec_gcm.decrypt[%s]' % bcv[3:-11], ('ssl__ssl_rec_gcm', 'gcm_decrypt'), [X(0), BOT, BOT, X(3), X(4)],
+          {(0,): AEAD_CTX, (3,): whole('data')}, ptr_rules={((0,), 16): [bcv], ((0,), 272): ['F:br_ghash_ctmul', 'F:br_ghash_ctmul32', 'F:br_ghash_ctmul64']})
+for bcv in ('br_aes_ct_ctrcbc_vtable', 'br_aes_ct64_ctrcbc_vtable'):
+    entry('rec_ccm.decrypt[%s]' % bcv[3:-14], ('ssl__ssl_rec_ccm', 'ccm_decrypt'), [X(0), BOT, BOT, X(3), X(4)],
+          {(0,): fields([(24, 24 + 240, 'enckey')]), (3,): whole('data')}, ptr_rules={((0,), 16): [bcv]})
+entry('rec_chapol.decrypt', ('ssl__ssl_rec_chapol', 'chapol_decrypt'), [X(0), BOT, BOT, X(3), X(4)],
+      {(0,): fields([(16, 48, 'key')]), (3,): whole('data')},
+      ptr_rules={((0,), 64): ['F:br_chacha20_ct_run'], ((0,), 72): ['F:br_poly1305_ctmul_run', 'F:br_poly1305_ctmul32_run', 'F:br_poly1305_ctmulq_run', 'F:br_poly1305_i15_run']})
 # ---- conditional copy and constant-time helpers
 entry('ccopy', 'br_ccopy', [SEC('ctl'), X(1), X(2), BOT], {(1,): whole('dst'), (2,): whole('src')})
 
@@ -94,6 +121,7 @@ def run_entry(e, units):
     pol = Policy(e['rules'], nonct=e['nonct'])
     pol.ptr_rules = e['ptr_rules']
     pol.cswap = ('cswap',) if e.get('cswap_model', True) else ()
+    pol.public_results = PUBLIC_RESULTS
     eng = Engine(units, pol)
     t = time.time()
     fn = e['func']
@@ -133,6 +161,38 @@ def _worker(i):
         return dict(name=ENTRIES[i]['name'], error='internal: %s\n%s' % (ex, traceback.format_exc()[-600:]))
 
 
+def positive_controls(chk):
+    """the engine must fire on the built-in leaky examples (and stay quiet on the constant-time one) on every run"""
+    import subprocess
+    wd = build.workdir()
+    src = os.path.join(build.VERIF, 'selftest', 'ct_bad.c')
+    ll = os.path.join(wd, 'ct_bad.ll')
+    js = os.path.join(wd, 'ct_bad.json')
+    p = subprocess.run(['clang', '-g', '-S', '-emit-llvm', '-O0', '-Xclang', '-disable-O0-optnone', '-w', src, '-o', ll + '.raw'], capture_output=True, text=True)
+    if p.returncode:
+        raise AnalysisBroken('positive control does not compile: ' + p.stderr[-300:])
+    subprocess.run(['opt-14', '-S', '-passes=mem2reg', ll + '.raw', '-o', ll], check=True)
+    with open(js, 'w') as f:
+        subprocess.run([build.IRDUMP, ll], stdout=f, check=True)
+    units = {'ct_bad': json.load(open(js))}
+    expect = {
+        'ctbad_early_exit': ([X(0), X(1), BOT], {(0,): whole('s')}, 'branch'),
+        'ctbad_table': ([X(0)], {(0,): whole('s')}, 'load address'),
+        'ctbad_mux': ([SEC('ctl'), BOT, BOT], {}, 'branch'),
+        'ctbad_memcmp': ([X(0), X(1)], {(0,): whole('s')}, 'call to non-CT memcmp'),
+        'ctgood_eq': ([X(0), X(1), BOT], {(0,): whole('s')}, None),
+    }
+    for fn, (args, rules, sink) in expect.items():
+        pol = Policy(rules, nonct=('memcmp', 'strlen', 'strcmp', 'memchr'))
+        eng = Engine(units, pol)
+        eng.analyze(fn, args)
+        kinds = sorted(set(k[3] for k in eng.alarms))
+        if (sink is None and kinds) or (sink is not None and sink not in kinds):
+            raise AnalysisBroken('positive control %s: expected %s, engine reported %s' % (fn, sink, kinds))
+    chk.count('positive_controls_fired', 4)
+    chk.count('negative_controls_quiet', 1)
+
+
 def run(tier):
     chk = report.Check('C08', tier,
                        'IR-level secret-taint analysis (sa/flow.py) of the constant-time entry points: starting from the documented secret '
@@ -147,6 +207,7 @@ def run(tier):
                                     'C: integer parameters and loaded sizes are non-negative for the index-range analysis'],
                        trusted=['clang 14 -O0 + mem2reg IR', 'sa/flow.py', 'policy table in sa/checks/c08.py'])
     import multiprocessing as mp
+    positive_controls(chk)
     flow.all_units()
     with mp.get_context('fork').Pool(min(16, len(ENTRIES))) as pool:
         res = pool.map(_worker, range(len(ENTRIES)))
